@@ -297,6 +297,8 @@ func (p *parser) parseObjectProperty() ast.Property {
 			ParameterList: parameterList,
 		}
 		p.parseFunctionBlock(node)
+		// The text Function.prototype.toString answers with (15.3.4.2).
+		node.Source = "function " + p.slice(parameterList.Opening, node.Idx1())
 		return ast.Property{
 			Key:   value,
 			Kind:  "get",
@@ -316,6 +318,7 @@ func (p *parser) parseObjectProperty() ast.Property {
 			ParameterList: parameterList,
 		}
 		p.parseFunctionBlock(node)
+		node.Source = "function " + p.slice(parameterList.Opening, node.Idx1())
 		return ast.Property{
 			Key:   value,
 			Kind:  "set",
